@@ -191,6 +191,11 @@ def gen(rng, budget, tier):
         yield f"c11.parse {hexs(q.encode())} {hexs(b'ERR')}"
     for q in ["", "`", "select `", "select `` from T", "select ` `", "\"", "select \"", "select a where a eq \"\"", ";", "select a,,b", "select a from T where"]:
         yield f"c11.parse {hexs(q.encode())} -"
+    # every clause keyword directly followed by another clause (an empty clause body), with and without "by" / quotes
+    for k1 in KEYWORDS:
+        for k2 in ["limit 10", "from T", "\"\"", "\"\" limit 1", "`` from T"]:
+            for by in ["", "by "]:
+                yield f"c11.parse {hexs(('select a ' + k1 + ' ' + by + k2).encode())} -"
     for _ in range(budget):
         text, dump = make(rng)
         r = rng.random()
@@ -212,7 +217,7 @@ def gen(rng, budget, tier):
 
 def model_case(case, impl):
     if "#" not in impl:
-        return None
+        return case + " -"          # a panic / crash of the real parser: still compared with the model
     return case + " " + impl.rsplit("#", 1)[1]
 
 
